@@ -6,6 +6,7 @@ POSITION together with that position's weight, which is > 0.
 -/
 import CobaVerif.Lemmas.C16
 import CobaVerif.Generated.C16CorralConsts
+import CobaVerif.Generated.C16Exprs
 
 namespace Coba.C16
 open Coba.C05 (choicew next)
@@ -203,5 +204,115 @@ theorem corral_over_plain_accepts_iff' (fl : Rat → Rat) (s : (corralOver fl (l
   constructor
   · rintro ⟨h0, h1, hp, _⟩; exact ⟨h0, h1, hp⟩
   · rintro ⟨h0, h1, hp⟩; exact ⟨h0, h1, hp, allAccept_leaf fl _ _⟩
+
+/-! ### Phase 5: `accepts` at every depth is the decidable recursive predicate `acceptsB` -/
+
+theorem allAccept_iff_B {B : Base} (h : B.Laws) (acc : B.σ → Act → Rat → Rat → Bool)
+    (hacc : ∀ s a r p, h.accepts s a r p ↔ acc s a r p = true) :
+    ∀ (ss : List B.σ) (fs : List (Act × Rat × Rat)), allAccept h ss fs ↔ allAcceptB acc ss fs = true := by
+  intro ss
+  induction ss with
+  | nil => intro fs; simp [allAccept, allAcceptB]
+  | cons s ss ih =>
+    intro fs
+    cases fs with
+    | nil => simp [allAccept, allAcceptB]
+    | cons f fs =>
+      obtain ⟨a, r, p⟩ := f
+      simp only [allAccept, allAcceptB, Bool.and_eq_true]
+      rw [hacc s a r p, ih fs]
+
+theorem accepts_iff_acceptsB' (fl : Rat → Rat) : ∀ (n : Nat) (s : (tower fl n).σ) (a : Act) (r p : Rat),
+    (towerLaws fl n).accepts s a r p ↔ acceptsB fl n s a r p = true := by
+  intro n
+  induction n with
+  | zero => intro s a r p; simp [towerLaws, leafLaws, acceptsB]
+  | succ n ih =>
+    intro s a r p
+    cases s with
+    | inl s => simp [towerLaws, sumLaws, leafLaws, acceptsB]
+    | inr s =>
+      have key := allAccept_iff_B (towerLaws fl n) (acceptsB fl n) ih s.bases
+        (corralFeedback s.c.importance s.lastActs s.lastProbs a (misguide fl s.mis r) p)
+      simp only [towerLaws, sumLaws, corralLaws, acceptsB, Bool.and_eq_true, decide_eq_true_eq, Bool.not_eq_true', decide_eq_false_iff_not]
+      rw [key]
+      tauto
+
+/-- off-policy feedback passes (action, reward, probability) through to every base learner -/
+theorem allAccept_const {B : Base} (h : B.Laws) (a : Act) (r p : Rat) :
+    ∀ (ss : List B.σ) (L : List Act), L.length = ss.length →
+      (allAccept h ss (L.map (fun _ => (a, r, p))) ↔ ∀ b ∈ ss, h.accepts b a r p) := by
+  intro ss
+  induction ss with
+  | nil => intro L _; simp [allAccept]
+  | cons s ss ih =>
+    intro L hL
+    cases L with
+    | nil => simp at hL
+    | cons x xs =>
+      simp only [List.map_cons, allAccept, List.mem_cons, forall_eq_or_imp]
+      rw [ih xs (by simpa using hL)]
+
+theorem offpolicy_accepts_iff' (fl : Rat → Rat) {B : Base} (h : B.Laws) (s : (corralOver fl B).σ) (a : Act) (r p : Rat)
+    (hoff : s.c.importance = false) (hlen : s.lastActs.length = s.bases.length) :
+    (corralLaws fl h).accepts s a r p ↔
+      (0 ≤ misguide fl s.mis r ∧ misguide fl s.mis r ≤ 1 ∧ p ≠ 0 ∧ ∀ b ∈ s.bases, h.accepts b a (misguide fl s.mis r) p) := by
+  simp only [corralLaws, corralFeedback, hoff, Bool.false_eq_true, ↓reduceIte]
+  rw [allAccept_const h a (misguide fl s.mis r) p s.bases s.lastActs hlen]
+
+/-- a tower in which every Corral runs off-policy, carries no Misguided wrapper and has predicted (holds one base choice per base learner) -/
+def offPolicyPlain (fl : Rat → Rat) : (n : Nat) → (tower fl n).σ → Prop
+  | 0 => fun _ => True
+  | n + 1 => fun (s : Leaf ⊕ CNode (tower fl n).σ) =>
+    match s with
+    | .inl _ => True
+    | .inr s => s.c.importance = false ∧ s.mis = [] ∧ s.lastActs.length = s.bases.length ∧ ∀ b ∈ s.bases, offPolicyPlain fl n b
+
+theorem offpolicy_tower_accepts' (fl : Rat → Rat) : ∀ (n : Nat) (s : (tower fl n).σ) (a : Act) (r p : Rat),
+    offPolicyPlain fl n s → 0 ≤ r → r ≤ 1 → p ≠ 0 → (towerLaws fl n).accepts s a r p := by
+  intro n
+  induction n with
+  | zero => intro s a r p _ _ _ _; simp [towerLaws, leafLaws]
+  | succ n ih =>
+    intro s a r p hs h0 h1 hp
+    cases s with
+    | inl s => simp [towerLaws, sumLaws, leafLaws]
+    | inr s =>
+      obtain ⟨hoff, hmis, hlen, hb⟩ := hs
+      have hm : misguide fl s.mis r = r := by rw [hmis]; rfl
+      show (corralLaws fl (towerLaws fl n)).accepts s a r p
+      rw [offpolicy_accepts_iff' fl (towerLaws fl n) s a r p hoff hlen, hm]
+      exact ⟨h0, h1, hp, fun b hbm => ih b a r p (hb b hbm) h0 h1 hp⟩
+
+/-- witness compositions for the `example` beside `accepts_iff_acceptsB`: a Corral (importance / off-policy) over one importance Corral -/
+def accCorral (imp : Bool) (ps : List Rat) : Corral :=
+  { gamma := 0, beta := 1, importance := imp, ps := ps, pbars := ps, etas := ps, rhos := ps, rng := 0 }
+def accInner : (tower (fun x => x) 1).σ := Sum.inr { c := accCorral true [], bases := [] }
+def accTop (imp : Bool) : (tower (fun x => x) 2).σ :=
+  Sum.inr { c := accCorral imp [1], lastActs := [0], lastProbs := [1], bases := [accInner] }
+
+/-! ### Phase 5: the update expressions of the source, translated with `ast`, evaluate (in floats) to what the model computes -/
+
+open Coba.Generated.C16 in
+theorem update_exprs_match' (fl : Rat → Rat) :
+    (∀ (gamma p : Rat) (M : Nat), Ex.evalF fl [gamma, p, (M : Rat)] pbarExpr = pbarF fl gamma M p) ∧
+    (∀ (beta pb e rh : Rat) (pbs es rhs : List Rat), etaRhoF fl beta (pb :: pbs) (e :: es) (rh :: rhs) =
+        if rh < Ex.evalF fl [pb] rhoThrExpr
+        then (fl (e * beta) :: (etaRhoF fl beta pbs es rhs).1, Ex.evalF fl [pb] rhoNewExpr :: (etaRhoF fl beta pbs es rhs).2)
+        else (e :: (etaRhoF fl beta pbs es rhs).1, rh :: (etaRhoF fl beta pbs es rhs).2)) ∧
+    (∀ (st : Eps) (a : Act) (r : Rat), (Eps.learn fl st a r).Q =
+        dset st.Q a (Ex.evalF fl [Ex.evalF fl [(st.n a : Rat)] epsAlphaExpr, st.q a, r] epsQExpr)) ∧
+    (∀ (st : Ucb) (a : Act) (r mv : Rat) (sv : Nat), dget st.m a = some mv → dget st.s a = some sv → sv ≠ 0 →
+        Ucb.learn fl st a r =
+          .ok { t := st.t + 1, m := dset st.m a (Ex.evalF fl [(sv : Rat), mv, r] ucbMeanExpr), s := dset st.s a (sv + 1) }) := by
+  refine ⟨?_, ?_, ?_, ?_⟩
+  · intro gamma p M
+    simp [Ex.evalF, pbarExpr, pbarF]
+  · intro beta pb e rh pbs es rhs
+    simp only [etaRhoF, Ex.evalF, rhoThrExpr, rhoNewExpr, List.getD_cons_zero, Nat.cast_one, Nat.cast_ofNat]
+  · intro st a r
+    simp [Eps.learn, Ex.evalF, epsAlphaExpr, epsQExpr]
+  · intro st a r mv sv hm hs hsv
+    simp [Ucb.learn, hm, hs, hsv, Ex.evalF, ucbMeanExpr]
 
 end Coba.C16
